@@ -11,6 +11,8 @@ import TextxVerif.Proofs.HistoryReach
 * `closed_cleared` — under `walkOK` the walked set satisfies `Peg.Closed`, so by `parse_stores_in` every
   memo entry written by a parse belongs to a walked rule object: `parseText_walk`, and from there
   `load_walk`, `run_walk`: `realWalk` and `real` are the same machine on states with empty caches.
+* `load_sw` — a load commutes with replacing the grammar-parser cache and the owner of the base-type rules
+  (as long as "there is an owner" is unchanged), for every variant of the machine.
 -/
 namespace History
 open Peg
@@ -358,5 +360,73 @@ theorem run_walk (W : World) (sem : Sem) (hW : W.walkOK = true) : ∀ (ops : Lis
       obtain ⟨h1, h2⟩ := load_walk W sem k files H hW hc
       simp only [run, step, h1]
       rw [ih (load real W sem k files H).2 h2]
+
+/-! ## what a load reads of the creation history: nothing of `gp`, of `baseOwner` only whether it is set -/
+
+/-- the same state with another grammar-parser cache and another owner of the base-type rules -/
+def sw (gp : List (Bool × Bool)) (bo : Option Nat) (H : Hidden) : Hidden := { H with gp := gp, baseOwner := bo }
+
+theorem oneFile_sw (v : Variant) (W : World) (sem : Sem) (k : Nat) (m : MM) (b : PObj) (x : Inp) (H : Hidden) (pr : Prog)
+    (gp : List (Bool × Bool)) (bo : Option Nat) (h : bo.isSome = H.baseOwner.isSome) :
+    oneFile v W sem k m b x (sw gp bo H) pr =
+      ((oneFile v W sem k m b x H pr).1, sw gp bo (oneFile v W sem k m b x H pr).2.1, (oneFile v W sem k m b x H pr).2.2) ∧
+    (oneFile v W sem k m b x H pr).2.1.baseOwner = H.baseOwner := by
+  unfold oneFile clone sw
+  simp only []
+  generalize parseText v W m x H.cache = pt
+  obtain ⟨o, st, c⟩ := pt
+  cases o <;> simp [wr, rd, h]
+
+theorem loadFiles_sw (v : Variant) (W : World) (sem : Sem) (k : Nat) (m : MM) (b : PObj)
+    (gp : List (Bool × Bool)) (bo : Option Nat) :
+    ∀ (xs : List Inp) (H : Hidden) (pr : Prog), bo.isSome = H.baseOwner.isSome →
+    loadFiles v W sem k m b xs (sw gp bo H) pr =
+      ((loadFiles v W sem k m b xs H pr).1, sw gp bo (loadFiles v W sem k m b xs H pr).2.1,
+       (loadFiles v W sem k m b xs H pr).2.2) := by
+  intro xs
+  induction xs with
+  | nil => intro H pr _; rfl
+  | cons x xs ih =>
+    intro H pr h
+    obtain ⟨h1, h2⟩ := oneFile_sw v W sem k m b x H pr gp bo h
+    simp only [loadFiles, h1]
+    generalize oneFile v W sem k m b x H pr = r at h2 ⊢
+    obtain ⟨o, H1, pr1⟩ := r
+    cases o with
+    | none => exact ih H1 pr1 (by rw [h]; simp only at h2; rw [h2])
+    | some _ => rfl
+
+theorem giveBackAll_sw (k : Nat) (gp : List (Bool × Bool)) (bo : Option Nat) :
+    ∀ (ps : List Live) (H : Hidden), giveBackAll k ps (sw gp bo H) = sw gp bo (giveBackAll k ps H) := by
+  intro ps
+  induction ps with
+  | nil => intro H; rfl
+  | cons p ps ih =>
+    intro H
+    simp only [giveBackAll, List.foldl_cons] at ih ⊢
+    rw [← ih]
+    congr 1
+    unfold giveBack sw
+    cases p.replaced <;> rfl
+
+theorem load_sw (v : Variant) (W : World) (sem : Sem) (k : Nat) (files : List Inp) (H : Hidden)
+    (gp : List (Bool × Bool)) (bo : Option Nat) (h : bo.isSome = H.baseOwner.isSome) :
+    load v W sem k files (sw gp bo H) = ((load v W sem k files H).1, sw gp bo (load v W sem k files H).2) := by
+  unfold load
+  cases hk : W.mms[k]? with
+  | none => rfl
+  | some m =>
+    have hb : (sw gp bo H).blue k = H.blue k := rfl
+    rw [hb]
+    cases hbk : H.blue k with
+    | none => rfl
+    | some b =>
+      simp only [loadFiles_sw v W sem k m b gp bo files H {} h]
+      generalize loadFiles v W sem k m b files H {} = r
+      obtain ⟨o, H1, pr1⟩ := r
+      have hi : (sw gp bo H1).instr = H1.instr := rfl
+      cases o with
+      | none => simp only [giveBackAll_sw, hi]
+      | some fl => simp only [giveBackAll_sw]
 
 end History
